@@ -30,7 +30,27 @@ class RngChooser:
         return order
 
 
-def build_dag(sc, ap, order_seed, permute_phases=True):
+ID_STEMS = ["upd_y", "upd_z", "stage", "rhs"]
+
+
+def rename_ids(stmts, salt):
+    """hand-written style statement ids: main_7 -> upd_z_3 etc.  (several ids share a numeric suffix and
+    differ only before it); a fixed function of the builder id, identical in every worker"""
+    def new_id(old):
+        k = int(old.rsplit("_", 1)[1])
+        return "%s_%d" % (ID_STEMS[(k * 7 + salt) % len(ID_STEMS)], k // 2)
+    mapping = {}
+    used = set()
+    for st in stmts:
+        n = new_id(st.id)
+        while n in used:
+            n += "x"
+        used.add(n)
+        mapping[st.id] = n
+    return [st.copy(id=mapping[st.id], depends_on=frozenset(mapping[d] for d in st.depends_on)) for st in stmts]
+
+
+def build_dag(sc, ap, order_seed, permute_phases=True, id_salt=None):
     """DAGCode with worker-chosen container orders (order_seed None = builder order, plain sets)."""
     from dagrt.language import DAGCode, ExecutionPhase
     from simdag.seams.ordfs import OrdFS
@@ -42,6 +62,8 @@ def build_dag(sc, ap, order_seed, permute_phases=True):
         rng.shuffle(order)
     for ph in order:
         stmts = list(ap.builders[ph.name].statements)
+        if id_salt is not None:
+            stmts = rename_ids(stmts, id_salt)
         if rng is not None:
             rng.shuffle(stmts)
             cp = []
@@ -58,6 +80,8 @@ def gen_py_script(values, **kw):
     from simdag.core.tape import Tape
     from simdag.gen.script import ScriptGen, apply_script
     tape = Tape(recorded=values)
+    kw.setdefault("max_ops", 8)
+    kw.setdefault("max_phases", 3)
     sc = ScriptGen(tape, **kw).gen()
     return sc, apply_script(sc)
 
@@ -71,18 +95,18 @@ def gen_f_script(values, **kw):
     return sc, apply_script(sc)
 
 
-def python_text(sc, ap, order_seed):
+def python_text(sc, ap, order_seed, id_salt=None):
     from dagrt.codegen import PythonCodeGenerator
     # the Python generator emits phases in dag.phases insertion order, which the property does not
     # list among the things the text must be independent of: phase order is kept fixed here
-    code = build_dag(sc, ap, order_seed, permute_phases=False)
+    code = build_dag(sc, ap, order_seed, permute_phases=False, id_salt=id_salt)
     return PythonCodeGenerator(class_name="Method")(code)
 
 
-def fortran_text(sc, ap, order_seed):
+def fortran_text(sc, ap, order_seed, id_salt=None):
     import dagrt.codegen.fortran as f
     from simdag.gen.fortran_subset import make_registry, module_preamble, user_type_map
-    code = build_dag(sc, ap, order_seed)
+    code = build_dag(sc, ap, order_seed, id_salt=id_salt)
     freg, _twins = make_registry(sc)
     cg = f.CodeGenerator("m", function_registry=freg, user_type_map=user_type_map(sc),
                          module_preamble=module_preamble(sc))
@@ -154,16 +178,27 @@ def job_c15(job):
         do_history(h)
     out = {}
     try:
-        sc, ap = gen_py_script(job["py_values"])
-        out["python"] = python_text(sc, ap, job.get("order_seed"))
+        kw = job.get("py_kw") or {}
+        sc, ap = gen_py_script(job["py_values"], force=tuple(kw.get("force") or ()), cfg=kw.get("cfg"))
+        out["python"] = python_text(sc, ap, job.get("order_seed"), job.get("id_salt"))
         if job.get("want_interp", True):
             out["interp"] = interp_log(sc, ap, job.get("order_seed"))
     except Exception as e:
         out["python_exc"] = "%s: %s" % (type(e).__name__, "".join(traceback.format_exception_only(type(e), e))[:300])
+    if job.get("extra_py"):
+        extra = []
+        for vals in job["extra_py"]:
+            try:
+                sc2, ap2 = gen_py_script(vals, force=("phases", "switch"),
+                                         cfg={"phase_names": ["main", "p2", "init", "primary"]}, max_ops=6)
+                extra.append(python_text(sc2, ap2, job.get("order_seed"), job.get("id_salt")))
+            except Exception as e:
+                extra.append("EXC:" + type(e).__name__)
+        out["python_extra"] = "\n#=====\n".join(extra)
     if job.get("f_values") is not None:
         try:
             scf, apf = gen_f_script(job["f_values"])
-            out["fortran"] = fortran_text(scf, apf, job.get("order_seed"))
+            out["fortran"] = fortran_text(scf, apf, job.get("order_seed"), job.get("id_salt"))
         except Exception as e:
             out["fortran_exc"] = type(e).__name__ + ":" + str(e)[:120]
     return out
